@@ -10,7 +10,11 @@ UNITS = [
     ("harness/c13_bits.cpp", [1, 2, 3, 4, 5, 6, 7], [1]),  # part 8 is thorough-only, added below
     ("harness/c13_cstr.cpp", [1, 2], [1, 2]),
     ("harness/c13_kernels.cpp", [1, 2, 3, 4, 5, 6, 7, 8], []),
+    ("harness/c13_vocab.cpp", [1, 2], []),  # round 2; quick build: 1 = optional+variant+expected, 2 = bitset+span+pair/tuple+mdspan+sets
 ]
+# thorough-only units (round 2): cmath entry points of the binary functions / fma; vocabulary types per group, history tables in slices
+THOROUGH_EXTRA = [("harness/c13_cmath.cpp", 7, 1), ("harness/c13_cmath.cpp", 8, 1)]
+VOCAB_THOROUGH = [(1, 2), (2, 8), (3, 2), (4, 1), (5, 1), (6, 1), (7, 4), (8, 1)]  # (part, slices)
 
 runs = []
 for src, parts, o0 in UNITS:
@@ -19,10 +23,28 @@ for src, parts, o0 in UNITS:
         if p in o0:
             runs.append({"src": src, "flavour": "O0", "std": "c++20", "defs": ["-DMC_PART=%d" % p], "cxxflags": CX, "tiers": ["quick"]})
 for src, parts, _ in UNITS:
+    if src.endswith("c13_vocab.cpp"):
+        continue
     for p in parts + ([8] if src.endswith("c13_bits.cpp") else []):
         for fl in ("O2", "O0"):
             runs.append({"src": src, "flavour": fl, "std": "c++20", "defs": ["-DMC_PART=%d" % p, "-DC13_THOROUGH=1"], "cxxflags": CX,
                          "tiers": ["thorough"]})
+for src, p, _ in THOROUGH_EXTRA:
+    for fl in ("O2", "O0"):
+        runs.append({"src": src, "flavour": fl, "std": "c++20", "defs": ["-DMC_PART=%d" % p, "-DC13_THOROUGH=1"], "cxxflags": CX, "tiers": ["thorough"]})
+for p, slices in VOCAB_THOROUGH:
+    for sl in range(slices):
+        for fl in ("O2", "O0"):
+            runs.append({"src": "harness/c13_vocab.cpp", "flavour": fl, "std": "c++20",
+                         "defs": ["-DMC_PART=%d" % p, "-DC13_THOROUGH=1", "-DMC_SLICES=%d" % slices, "-DMC_SLICE=%d" % sl], "cxxflags": CX,
+                         "tiers": ["thorough"]})
+# approximating cmath functions at the boundary arguments of their documented domain: success probes (round 2, direction 4)
+runs.append({"src": "harness/c13_cmath.cpp", "flavour": "O2", "std": "c++20", "defs": ["-DMC_PART=9", "-DC13_THOROUGH=1"], "cxxflags": CX, "tiers": ["thorough"]})
+# contract checks on (flavour chk): every precondition of a valid call must itself be a constant expression
+for p in [1, 2, 3, 4, 5, 6, 7, 8]:
+    runs.append({"src": "harness/c13_kernels.cpp", "flavour": "chk", "std": "c++20", "defs": ["-DMC_PART=%d" % p], "cxxflags": CX, "tiers": ["thorough"]})
+for p in [1, 2]:
+    runs.append({"src": "harness/c13_vocab.cpp", "flavour": "chk", "std": "c++20", "defs": ["-DMC_PART=%d" % p], "cxxflags": CX, "tiers": ["thorough"]})
 
 prop = {
     "property": "C13",
@@ -67,13 +89,65 @@ prop = {
             "ratio<5,7>; 20 algorithms on every sequence of length <= 5 (thorough 6) over {0,1,2} x every split point. evaluations = "
             "table entries executed at run time and compared with the compiler's table; distinct_nontrivial = entries whose argument "
             "tuple is not all-zero / all-empty (+0.0, 0, empty strings, the all-zero history), distinct by content hash (tables up "
-            "to 20000 entries) or by construction (product tables).",
+            "to 20000 entries) or by construction (product tables). "
+            "ROUND 2. Every entry point of the exact cmath set, not only the overload set of the plain name: floorf ceilf truncf roundf rintf "
+            "lrintf llrintf and the l-suffixed twins over B (quick and thorough), copysignf fminf fmaxf fdimf fmodf remainderf nextafterf and "
+            "the l-suffixed twins over B2 x B2, fmaf / fmal over B3^3 (thorough); the integral overloads floor ceil trunc round rint lrint "
+            "llrint isnan isinf of signed char, unsigned char (all 256 values), short, int, unsigned, long, unsigned long long (lattice 0, "
+            "+-1, 2, 3, 7, 10, 255, 256, 65535, 2^k and neighbours for k in {15,16,24,31,32,53,62,63}). Integer conversion: to_chars -> "
+            "strtol/strtoll/strtoul/strtoull (text as written, and upper-cased behind blanks and a plus sign) -> stoi/stol/stoll/stoul/"
+            "stoull -> to_string<exact capacity> -> atoi/atol/atoll for int, long, long long, unsigned, unsigned long, unsigned long long "
+            "x every value in [-128,255] plus min, min+1, min+2, max-2, max-1, max, max/2, max/10, max/16, max/36 with neighbours and the "
+            "32-bit limits inside the 64-bit types x bases {2,10,16,36}. string_view search/compare family also for wchar_t, char8_t, "
+            "char16_t, char32_t with letters 0x0161 / 0x0240 (value order opposite to little-endian byte order; char8_t: 0x61 / 0xC3) over "
+            "hay <= 3 (thorough 4), needle <= 2, every pos, plus char_traits::compare / lt. Calendar: year_month_day, weekday, "
+            "year_month_day_last, local_days conversions, ymd +- months {-25..25}, ym +- months / years, ymd +- years, weekday +- days "
+            "[-15,15] in windows of +-2 (thorough +-3) days around Jan 1, Feb 28, Mar 1, Jul 31, Dec 31 of 33 boundary years (-32767, "
+            "-32766, -4800, -401..-399, -101, -100, -1, 0, 1, 4, 100, 400, 1582, 1600, 1700, 1800, 1900, 1901, 1969..1972, 1999..2001, 2038, "
+            "2100, 2400, 9999, 10000, 32766, 32767) and around the first day of 21 consecutive 400-year eras. Durations: duration_cast, "
+            "floor, ceil, round, abs and the time_point twins for ten (From, To) pairs (ns->us, s->min, h->days, min->s, "
+            "duration<int,1/3>->ms, ratio 7/3 -> 5/2, double ms -> s, s -> double minutes, days->weeks, duration<short,milli> -> "
+            "duration<signed char>) x counts [-150,150] + 40 boundary counts with both signs (ties, unit multiples +-1, 10^6, 10^9, 2^31, 2^32, "
+            "10^11); counts within a factor 4 of a rep limit are out of the domain (the common-type arithmetic of floor/ceil/round may "
+            "overflow there). A second algorithm kernel (bubble/exchange/gnome/insertion/merge_sort, partial_sort, nth_element, "
+            "is_sorted_until, merge, inplace_merge, set_union/intersection/difference/symmetric_difference, includes, equal_range, search, "
+            "find_end, search_n, find_first_of, mismatch (3 and 4 iterators), is_permutation, find_if(_not), all/any/none_of, count_if, "
+            "minmax_element, stable_partition, is_partitioned, partition_point, partition_copy, shift_left/right, rotate_copy, unique_copy, "
+            "remove_copy(_if), remove_if, replace(_if), swap_ranges, iter_swap, copy_n, copy_backward, move(_backward), fill_n, generate(_n), "
+            "iota, transform (unary, binary), for_each(_n), accumulate, reduce, inner_product, transform_reduce, partial_sum, "
+            "adjacent_difference, clamp, min, max, minmax, assume_aligned) on every sequence of length <= 4 (thorough 5) over {0,1,2} x "
+            "every split point, inputs sorted / partitioned by the harness where the algorithm requires it. Vocabulary types and containers "
+            "(c13_vocab.cpp), histories = all operation sequences of the stated length from every listed initial state, state hashed after "
+            "every step: optional<int>, optional<NT> (NT = literal type with user-provided copy/move/destructor, sends optional/variant/"
+            "expected down their non-trivial paths) 12 operations x length 2 (thorough 3) x 4 initial (engaged, engaged) combinations, "
+            "optional<int&> 7 operations x length 3 (thorough 4); variant<int,NT,u8> and variant<int,short,u8>: 12 operations (converting "
+            "assignment to each alternative, emplace by index and by type, copy / move assignment and construction between the two "
+            "variants) x length 2 (3) x all 9 initial (index, index) pairs, observed through index, holds_alternative, get_if, visit, visit "
+            "with a second variant type of different arity, visit_with_index and the six relational operators; expected<int,Err>, "
+            "expected<NT,NT>, expected<int,NT>: 10 operations x length 2 (3) x 4 initial (value/error)^2 states; bitset<N> for N in "
+            "{1,8,9,33,63,64,65,128,129} (thorough also 2,7,15,16,17,31,32,62,66,127,192,193) and basic_bitset<N,Word> for (7,8,9 x u8), "
+            "(15,16,17 x u16), (33 x u32) (thorough also 1/u8, 31,32/u32, 63,64,65/u64, 64/u32, 64,65/u8, 65/u16): 20 bit patterns with bits "
+            "at and around every word boundary (thorough x 2 second operands): count/all/any/none, every bit through test and operator[], "
+            "&, |, ^, ~, ==, set/reset/flip/reference write at EVERY position, to_ullong/to_ulong, to_string and both string constructors; "
+            "span<int>: first/last/subspan for every (size <= 5 (7), offset <= size, count <= size - offset or dynamic_extent) in an exact-"
+            "size constexpr allocation, and every (Offset, Count) template argument pair of span<int,E>, E <= 4; pair<int,u8> (81 value "
+            "pairs: six relational operators, swap, converting assignment, structured binding), tuple<int,u8,long> (729: ==, !=, swap, get, "
+            "tie, tuple_cat, apply); extents of six types (index types int, u8, size_t, short, u32, long; static/dynamic patterns dd, 2d3, "
+            "ddd, d2d, d, 32) x every dynamic extent in [0,3] (4): extent, ==, conversion to dextents, layout_left / layout_right / "
+            "layout_stride (doubled strides) required_span_size, stride, offset of EVERY in-range multi-index, is_unique/exhaustive/strided, "
+            "mdspan element access through both layouts over an exact-size allocation; static_set<int,4> and flat_set<int,static_vector<"
+            "int,4>>: 8 operations x length 3 (4) x initial state {empty, full}, every lookup (find, count, contains, lower/upper_bound for "
+            "keys 0..5) on the final state. Thorough additionally runs the quick-size kernel and vocabulary units in the chk flavour "
+            "(contract checks incl. the _SAFE ones compiled in): every precondition of a valid call must itself be a constant expression.",
     "assumptions": [
         "g++ 12 constant evaluator and code generator are the two executors; no third oracle (a value both paths get wrong is C14/C16/C18's business, not C13's)",
         "x86-64, default rounding mode (rint/lrint/llrint round to nearest even)",
         "NaN results are compared as 'is NaN' (sign and payload ignored); every other result bit for bit (long double: the 80 value bits)",
-        "the approximating cmath functions (sin, exp, pow, sqrt, ...) are outside the statement ('exactly specified result ... the rounding/classification part of cmath'); harness parts 4-6 of c13_cmath.cpp probe them for constant-evaluation success but are not registered",
+        "the approximating cmath functions (sin, exp, pow, sqrt, ...) are outside the VALUE half of the statement ('exactly specified result ... the rounding/classification part of cmath'); since round 2 the thorough tier holds them to the other half, 'constant evaluation succeeds for every argument inside the documented domain', on a boundary table P (+-0, +-denorm_min, largest subnormal, +-min, epsilon, 0.5, 1-ulp, 1, 1+ulp, 1.5, 2, e, 3, 10, 20, 100, pi/2, pi, 2^digits, 2^62, 2^64, 2^100, max/2, max, +-inf, NaN; binary functions on a 26-value subset squared). Domain = no domain, pole or range error of the C standard (7.12.1): sin/cos/tan of infinities, asin/acos outside [-1,1], atanh at +-1, log of 0 or negatives, overflowing and underflowing results, subnormal arguments of the functions with f(x) ~ x are out. Failures are gcem limitations, listed per (function, type, magnitude bucket) in fixes_proposed/C13/r2-known.json; the own two- and three-argument hypot is repaired by r2-01-hypot-overflow.patch. Harness parts 4-6 of c13_cmath.cpp (the whole table B) stay unregistered",
         "mem* functions are not constexpr in tetl (API gap)",
+        "API gaps met in round 2 (not called): inplace_function / function_ref are not constexpr; static_set::equal_range is declared with a single-iterator return type and does not compile; year_month_day_last::operator sys_days and the year_month_weekday conversions are declared but not defined; tuple<T&...> has no converting assignment (tie(...) = tuple); tuple has only operator== (no ordering); bitset has no shift operators",
+        "with g++ the C-string functions (strlen, strcmp, strchr, memchr ...) have a single code path (the __builtin_ branch is clang-only) and char_traits has no is_constant_evaluated split: the character-type sweep can only find a difference through undefined behaviour",
+        "moved-from values are observed only after being overwritten; where an algorithm leaves a range unspecified (partial_sort tail, shift_left tail) the two executions run the same code, so equality is still demanded",
         "argument classes whose exact result is out of range or a domain error are outside the table (not constant expressions by the standard's own rule)"
     ],
     "level_text": "Exhaustive over the stated tables: complete for 8-bit arguments and 8-bit pairs, boundary tables for floating "
